@@ -677,6 +677,9 @@ def _decode(fin, T, sym, model):
 
 # ============================================================ ground arithmetic evaluator (independent)
 
+INTERVALS = {'real_closed_interval': (True, True), 'real_open_interval': (False, False)}
+
+
 def ground_eval(t):
     """Exact value of a ground arithmetic/boolean HOL term under the library semantics.
     Returns bool / int / Fraction; raises Unsupported otherwise.  Independent of z3."""
@@ -699,6 +702,12 @@ def ground_eval(t):
     argTs, resT = h.T.strip_type()
     if len(args) != len(argTs):
         raise Unsupported('ground_eval partial application')
+    if name == 'member' and len(args) == 2 and args[1].is_comb() and args[1].head.is_const() and \
+            args[1].head.name in INTERVALS and len(args[1].args) == 2:
+        # x Mem real_{closed,open}_interval a b etc. by the definitions in library/misc.json
+        x, lo, hi = ground_eval(args[0]), ground_eval(args[1].args[0]), ground_eval(args[1].args[1])
+        lc, rc = INTERVALS[args[1].head.name]
+        return (lo <= x if lc else lo < x) and (x <= hi if rc else x < hi)
     v = [ground_eval(a) for a in args]
     rn = resT.name if resT.is_tconst() else None
     if name == 'neg':
